@@ -4101,6 +4101,8 @@ class Wallet(object):
         if fee is False:
             transaction.change = 0
             transaction.fee = int(amount_total_input - amount_total_output)
+            # The fee is what the given inputs leave: check the fee limits against the real rate, not the estimate
+            transaction.fee_per_kb = None
         else:
             transaction.change = int(amount_total_input - (amount_total_output + transaction.fee))
 
